@@ -943,7 +943,7 @@ class Run(object):
         self.emit("Before", b=bid)
         if id(batch) in self.debug_bids:
             # DebugBatch has no harness _flush: its flush is observed from here
-            self.emit("FlushBegin", b=bid, a=1, xs=[getattr(i, "fid", -1) for i in batch.items])
+            self.emit("FlushBegin", b=bid, a=1, xs=[self.obj_id.get(id(i), -1) for i in batch.items])
 
     def _after(self, batch):
         bid = getattr(batch, "bid", None)
